@@ -91,6 +91,27 @@ def discover():
     return out
 
 
+# --------------------------------------------------------------------------- claimed level
+
+DECIDING_TIERS = ("quick", "thorough")
+
+
+def deciding(allh, prop):
+    """Harnesses whose verdict decides `prop`: canaries and tier `cex` harnesses (counterexample
+    finders paired with a Verus unit, run only after an obligation has already failed) are not."""
+    return [h for h in allh if prop in h["props"] and h["tier"] in DECIDING_TIERS
+            and not h["name"].startswith("canary")]
+
+
+def claimed_category(allh, prop):
+    """The level of a property is a statement about the whole set of deciding harnesses (both
+    tiers): `proof` only if every one is complete (loop-free / unbounded / operand-width unwinding
+    with passing unwinding assertions); a single bounded stand-in makes it `other`.  MANIFEST.json
+    (tools/gen_manifest.py) and every evidence file use this one function, so they cannot disagree."""
+    hs = deciding(allh, prop)
+    return "proof" if hs and all(h["kind"].startswith("complete") for h in hs) else "other"
+
+
 # --------------------------------------------------------------------------- known findings
 
 def load_known():
@@ -231,7 +252,8 @@ def run_property(prop, tier, seed):
         print(f"VIOLATION property={prop} replay={rp}{suffix}")
     # evidence
     wall = time.time() - t0
-    write_evidence(prop, tier, seed, results, evidence_units, undecided, vcount, knownhits, thorough_only, wall)
+    write_evidence(prop, tier, seed, results, evidence_units, undecided, vcount, knownhits, thorough_only, wall,
+                   claimed_category(allh, prop), [h for h in deciding(allh, prop) if not h["kind"].startswith("complete")])
     for u in undecided:
         log("UNDECIDED:", u)
     if vcount:
@@ -241,7 +263,7 @@ def run_property(prop, tier, seed):
     return 0
 
 
-def write_evidence(prop, tier, seed, results, units, undecided, vcount, knownhits, thorough_only, wall):
+def write_evidence(prop, tier, seed, results, units, undecided, vcount, knownhits, thorough_only, wall, level, bounded_all):
     obligations = discharged = 0
     samples, fns, solver_s, harness_rows, trusted, assumptions = [], {}, 0.0, [], set(), set()
     all_complete = True
@@ -280,7 +302,13 @@ def write_evidence(prop, tier, seed, results, units, undecided, vcount, knownhit
             trusted.add(t)
         for a in u.get("assumptions", []):
             assumptions.add(a)
-    level = "proof" if (all_complete and results and not undecided) else "other"
+    # `level` is the property-level claim (claimed_category), identical to MANIFEST.json; what this
+    # particular run did and did not decide is spelled out in the explanation and in `harnesses`.
+    for h in bounded_all:
+        b = f"{h['name']}: {h['kind']}"
+        if b not in bounds:
+            bounds.append(b + (" (thorough tier only; not run in this tier)" if h["tier"] == "thorough" and tier == "quick" else ""))
+    all_complete = all_complete and not bounded_all
     expl = ("every harness is loop-free or bounded only by operand width with passing unwinding assertions"
             if all_complete else
             "contract-based; some units are BOUNDED stand-ins (never counted as proved): " + "; ".join(bounds))
